@@ -1,11 +1,11 @@
 package checks
 
 import (
-	"errors"
 	"bytes"
 	crand "crypto/rand"
 	"crypto/sha256"
 	"encoding/binary"
+	"errors"
 	"fmt"
 	"math/big"
 	"sync"
